@@ -519,7 +519,10 @@ def mutate(view, rng):
         elif op == 6:
             v["reg"] = rng.choice([[], [md.get("component_type")] if isinstance(md.get("component_type"), str) else [], ["Other"]])
         elif op == 7:
-            md["injected_context_keys"], md["suppressed_context_keys"] = ["a", "b"], rng.choice([["b"], ["c"], ["a", "b"]])
+            if rng.random() < 0.3:   # string values: the overlap rule iterates them as characters
+                md["injected_context_keys"], md["suppressed_context_keys"] = rng.choice(["ab", "#", ["a"]]), rng.choice(["b", "#", ["a"], ["ab"]])
+            else:
+                md["injected_context_keys"], md["suppressed_context_keys"] = ["a", "b"], rng.choice([["b"], ["c"], ["a", "b"]])
         else:
             k = rng.choice(MKEYS)
             md.setdefault(k, "X" if k not in ("injected_context_keys", "suppressed_context_keys", "required_context_keys", "parameters") else [])
